@@ -253,6 +253,18 @@ class Verifier:
             eng.seek = fi.yields()[frm]
         eng.frm = frm
         eng.probes = self.make_probes(eng, names)
+        for qual, pred, gname, elem in self.spec.spawn_ghosts:
+            eng.pending_ghost(gname)
+        if frm == -1:
+            # this process was pending (spawned, not started) until now: S3 bookkeeping
+            for qual, pred, gname, elem in self.spec.spawn_ghosts:
+                if qual == c.qual:
+                    pnd = pred(eng, names)
+                    e = elem(eng, names)
+                    cnt, n = eng.pending_ghost(gname)
+                    st.assume(z3.Implies(pnd, z3.And(z3.Select(cnt, e) >= 1, n >= 1)))
+                    st.ghost[gname + '.cnt'] = z3.Store(cnt, e, z3.Select(cnt, e) - z3.If(pnd, 1, 0))
+                    st.ghost[gname + '.n'] = n - z3.If(pnd, 1, 0)
         st.locals = dict(names)
         old = eng.snapshot(names)
         outcome = None
@@ -424,7 +436,7 @@ class Verifier:
             if not o.eq(arr):
                 eng.oblige(f"{kind}:{q}:heap:{k[0]}.{k[1]}", 'frame', o == arr)
         for g, t in st.ghost.items():
-            if g.startswith('_') or g == 'alloc':
+            if g.startswith('_') or g == 'alloc' or g.startswith('pend_'):  # noqa
                 continue
             o = old._s.ghost.get(g)
             if f"ghost:{g}" in covered or o is None:
